@@ -139,6 +139,7 @@ def mask_accept(prod, cons, prod_grid, cons_grid):
 
 class C07(Property):
     id = "C07"
+    anchors = ('finam.data.tools.info:Info.accepts', 'finam.sdk.output:Output.get_info', 'finam.sdk.input:Input.exchange_info', 'finam.sdk.adapter:Adapter.exchange_info')
     technique = "rule-table oracle over set/unset/conflicting metadata fields vs outcome of the real connect(), field-by-field inspection of the exchanged input/output infos, and one datum sent over the link"
     rule = (
         "product over producer x consumer of time {set, unset}, grid {unset, G, G re-laid-out, other geometry, NoGrid}, units {m, km, s; consumer "
